@@ -1,5 +1,5 @@
 from ..jobs import CH
-from ..harness.strings import SEMANTIC, POOL
+from ..harness.strings import SEMANTIC, POOL, TRICKY
 
 H = "vf.harness.strings"
 CTX = [("", ""), ("{g;", "}"), ("<g|", ">"), ("map a r[", "]"), ("loop ", " {}"), ("/*", "*/g"), ("g ", "//x"), ("let x ", ""), ("register r[2]\n", ""),
@@ -32,6 +32,9 @@ def jobs(tier):
         out.append(CH(name=f"c16_semantic_{w}", base="c16_semantic", func=f"{H}:c16_semantic", params=[("v", "int"), ("entry", "int")], pre=["-2 <= v <= 4", "0 <= entry <= 2"],
                       fixed={"which": w}, timeout=600, functions=F + ["run_jaqal_string", "expand_macros", "fill_in_let", "fill_in_map"], twin=False,
                       note=f"program with one semantic error {SEMANTIC[w]!r}: only JaqalError (or ImportError for a missing pulse module) may be raised"))
+    for w in range(len(TRICKY)):
+        out.append(CH(name=f"c16_tricky_{w}", base="c16_tricky", func=f"{H}:c16_tricky", params=[("entry", "int")], pre=["0 <= entry <= 2"], fixed={"which": w}, timeout=300,
+                      twin=False, functions=F + ["as_integer", "generate_jaqal_program"], note=f"unusual concrete text {TRICKY[w][:40]!r}...: result, JaqalError or ImportError only"))
     for sel in range(len(POOL)):
         for order in (0, 1):
             out.append(CH(name=f"c16_history_{sel}_{order}", base="c16_history", func=f"{H}:c16_history", params=[("s", "str")], pre=[f"len(s) <= {n}"],
